@@ -293,6 +293,17 @@ def judge(ctx, t, env, entries, signed):
         if got == "skip":
             continue
         ctx.count("via_" + entry)
+        if signed:
+            # str.to.int on a signed numeral: ISLa's fast path reads "-5" as -5 (documented), Z3 as -1, and which of the two
+            # decides depends on whether the rest of the term has a fast path. Only "does not raise" is judged (DESIGN 8).
+            if isinstance(got, str) and got.startswith("raises"):
+                key, info = classify(ground)
+                if "not_implemented_failure" in str(ctx.last_exc):
+                    key = KF_ARITY
+                ctx.violation(key, f"{entry}: {got} on a term with a signed numeral under str.to.int; culprit {info}", {**wit, "entry": entry})
+            else:
+                ctx.count("signed_numeral_no_raise")
+            continue
         if got == exp:
             for o in ops:
                 ctx.count("op:" + o)
